@@ -47,6 +47,7 @@ type rewriter struct {
 	timeSh   bool
 	mapRange bool
 	errs     []string
+	extra    map[string]string // "importpath.Sel" -> shim name (per-package opt-in rewrites)
 }
 
 func (r *rewriter) id(p string) *ast.Ident {
@@ -327,7 +328,11 @@ func (r *rewriter) file(f *ast.File) {
 			if id, ok := n.X.(*ast.Ident); ok {
 				if pn, ok := r.info.Uses[id].(*types.PkgName); ok {
 					p := pn.Imported().Path()
-					if (p == "time" && r.timeSh || p == "sync") && selRewrites[p][n.Sel.Name] {
+					if nn, ok := r.extra[p+"."+n.Sel.Name]; ok {
+						r.used = true
+						r.counts[p+"."+n.Sel.Name]++
+						c.Replace(sh(nn))
+					} else if (p == "time" && r.timeSh || p == "sync") && selRewrites[p][n.Sel.Name] {
 						r.used = true
 						r.counts[p+"."+n.Sel.Name]++
 						prefix := "T"
@@ -351,7 +356,27 @@ func main() {
 	mapRange := flag.String("maprange", "*", "comma list of pkg paths where map ranges are canonicalised (* = all)")
 	modfile := flag.String("modfile", "", "alternate go.mod")
 	tags := flag.String("tags", "verif", "build tags")
+	extraFlag := flag.String("extra", "", "per-package selector rewrites: pkgpath:importpath.Sel=Shim,...;pkgpath:...")
 	flag.Parse()
+	extra := map[string]map[string]string{}
+	for _, part := range strings.Split(*extraFlag, ";") {
+		if part == "" {
+			continue
+		}
+		i := strings.Index(part, ":")
+		if i < 0 {
+			fatal("bad -extra %q", part)
+		}
+		m := map[string]string{}
+		for _, kv := range strings.Split(part[i+1:], ",") {
+			j := strings.Index(kv, "=")
+			if j < 0 {
+				fatal("bad -extra %q", kv)
+			}
+			m[kv[:j]] = kv[j+1:]
+		}
+		extra[part[:i]] = m
+	}
 	cfg := &packages.Config{
 		Mode: packages.NeedName | packages.NeedFiles | packages.NeedCompiledGoFiles | packages.NeedSyntax |
 			packages.NeedTypes | packages.NeedTypesInfo | packages.NeedImports | packages.NeedDeps,
@@ -405,6 +430,7 @@ func main() {
 				fset: p.Fset, info: p.TypesInfo, counts: map[string]int{},
 				timeSh:   !strings.Contains(","+*noTime+",", ","+p.PkgPath+","),
 				mapRange: *mapRange == "*" || strings.Contains(","+*mapRange+",", ","+p.PkgPath+","),
+				extra:    extra[p.PkgPath],
 			}
 			r.file(f)
 			if len(r.errs) > 0 {
@@ -422,7 +448,7 @@ func main() {
 			if !has {
 				astutil.AddNamedImport(p.Fset, f, "vsched", shimPath)
 			}
-			for _, imp := range []string{"time", "sync"} {
+			for _, imp := range []string{"time", "sync", "os/exec", "syscall", "github.com/fsnotify/fsnotify"} {
 				if !astutil.UsesImport(f, imp) {
 					astutil.DeleteImport(p.Fset, f, imp)
 				}
